@@ -392,6 +392,21 @@ def run(ctx, spec):
             sys.setrecursionlimit(20000)
             ctx.count("mon.big_trees")
             check_tree(ctx, shape_big(0), triples=True, pairs_cap=4000, rng=rng)
+        # one huge tree (tens of thousands of nodes: Euler tour beyond 65 536 entries, 17+ sparse-table levels)
+        if spec["i"] == 0:
+            for n in ([34000] if ctx.tier == "quick" else [34000, 50000, 70000]):
+                parents = [None]
+                for v in range(1, n):
+                    parents.append(rng.randrange(max(0, (v - 1) // 2 - 3), (v - 1) // 2 + 1))  # heap-like: depth O(log n)
+                chh = {v: [] for v in range(n)}
+                for v in range(1, n):
+                    chh[parents[v]].append(v)
+
+                def shape_huge(v):
+                    return tuple(shape_huge(c) for c in chh[v]) if chh[v] else None
+
+                ctx.count("mon.huge_trees")
+                check_tree(ctx, shape_huge(0), triples=True, pairs_cap=3000, rng=rng)
     elif spec["kind"] == "rmq":
         idx = 0
         for n in range(1, spec["maxlen"] + 1):
